@@ -103,6 +103,12 @@ def build(obj, conc, foreign_owner=False):
         else:
             t.variants.add(v)
         kt = obj["kidtype"][u]
+        if kt == "pair":
+            # two children of different kinds: the optional variant is attached first, the addon second
+            o = mk(u + "-o", "optional")
+            o.paths.packages = conc.path(u + "-o", "packages")
+            v.add(o)
+            kt = "addon"
         if kt != "none":
             c = mk(u + "-h", kt)
             c.paths.packages = conc.path(u + "-h", "packages")
@@ -115,6 +121,8 @@ def build(obj, conc, foreign_owner=False):
         t.images.images[arch] = {"boot.iso": IMG["boot"], "Kernel": IMG["kernel"]}
         if sec["imgs"] == "two":
             t.images.images[conc.p1] = {"kernel": IMG["xenkernel"], "initrd.IMG": IMG["initrd"]}
+        if sec["imgs"] == "emptyp1":
+            t.images.images[conc.p1] = {}
     if sec["stage2"] != "none":
         t.stage2.mainimage = IMG["stage2"]
         if sec["stage2"] == "both":
